@@ -38,8 +38,12 @@ def rule_bp_exponent(ctx):
     )
     common, classes = _bp_classes(ctx)
     init = common.methods["__init__"]
-    s = src_of(init.node).replace(" ", "")
-    if "self.exponent=tn.exponent" in s and "self.sign=1.0" in s:
+    tnparam = [p_ for p_ in init.posparams if p_ != "self"][0]
+    captures = any(isinstance(a, ast.Assign) and any(src_of(t) == "self.exponent" for t in a.targets)
+                   and any(isinstance(x, ast.Attribute) and x.attr == "exponent" and isinstance(x.value, ast.Name) and x.value.id in (tnparam, "tn") for x in ast.walk(a.value))
+                   for a in ast.walk(init.node))
+    sign1 = any(isinstance(a, ast.Assign) and any(src_of(t) == "self.sign" for t in a.targets) and const_value(a.value, None) in (1, 1.0) for a in ast.walk(init.node))
+    if captures and sign1:
         r.ok("BeliefPropagationCommon.__init__", sample={"captures": "self.exponent = tn.exponent; self.sign = 1.0"})
     else:
         r.bad(Finding("bp-exponent", "BeliefPropagationCommon.__init__", "does not capture tn.exponent / initialise sign", where=f"{init.module.relpath}:{init.lineno}"))
@@ -148,10 +152,14 @@ def rule_accumulator_units(ctx):
             # rho *= self.sign * 10 ** self.exponent
             for x in ast.walk(f.node):
                 if isinstance(x, ast.AugAssign) and isinstance(x.op, ast.Mult):
-                    s = src_of(x.value).replace(" ", "")
-                    if "self.sign" in s and "self.exponent" in s:
+                    attrs = {y.attr for y in ast.walk(x.value) if isinstance(y, ast.Attribute) and isinstance(y.value, ast.Name) and y.value.id == "self"}
+                    if {"sign", "exponent"} <= attrs:
                         nreaders += 1
-                        unit = 2 if ("self.exponent*2" in s or "2*self.exponent" in s) else 1
+                        doubled = any(
+                            isinstance(y, ast.BinOp) and isinstance(y.op, ast.Mult) and (
+                                (src_of(y.left) == "self.exponent" and const_value(y.right, None) == 2) or (src_of(y.right) == "self.exponent" and const_value(y.left, None) == 2))
+                            for y in ast.walk(x.value))
+                        unit = 2 if doubled else 1
                         readers.append((name, unit, x.lineno, src_of(x)[:50]))
         if not readers:
             continue
